@@ -300,6 +300,7 @@ func C05(c *wk.Ctx) {
 		c.Begin(run)
 		u := wk.NewUnit(run)
 		var maxRatio float64
+		var digest uint64
 		do := func(call pparse.Call, idx int) bool {
 			seed := c.UnitSeed(run, uint64(idx))
 			f, res, out, vname := checkParse(call, idx, seed, nil)
@@ -315,6 +316,7 @@ func C05(c *wk.Ctx) {
 			} else if out.Returned {
 				u.Counters["returned_tree"]++
 			}
+			digest = digest*1099511628211 ^ res.TraceHash ^ uint64(res.Steps)<<1 ^ wk.FNV(out.Err)
 			u.Hash("input", wk.FNV(call.Entry+"\x00"+call.Input))
 			u.Hash("interleaving", res.TraceHash^wk.FNV(call.Input))
 			if r := float64(res.Steps) / float64(call.Len()+64); r > maxRatio && f == nil {
@@ -348,6 +350,7 @@ func C05(c *wk.Ctx) {
 			}
 		}
 		u.Counters["max_steps_per_byte_x1000"] = int64(maxRatio * 1000)
+		u.Observe("digest", fmt.Sprintf("%016x", digest))
 		c.Emit(u)
 	}
 }
